@@ -2,6 +2,7 @@ package scen
 
 import (
 	"encoding/json"
+	"fmt"
 	authtypes "github.com/cosmos/cosmos-sdk/x/auth/types"
 	vestingtypes "github.com/cosmos/cosmos-sdk/x/auth/vesting/types"
 	baskettypes "github.com/regen-network/regen-ledger/x/ecocredit/v3/basket/types/v1"
@@ -308,6 +309,25 @@ func Market() Spec {
 		return ctx
 	}
 	bad = append(bad, Buy(L, "B0-half-by-locked-buyer", BuySpec{Seller: B, K: 0, Qty: "0.5", DAR: true, MaxFee: I64(100)}))
+	// the seller buying its own order under another spelling of its address (upper-case bech32 is the same account)
+	bad = append(bad, E{Name: "BuyDirect(B-in-upper-case,own-order)", Make: func(pre *chain.Snapshot) *explore.Action {
+		id, ok := OrderSel(pre, B, 0)
+		if !ok {
+			return nil
+		}
+		var msg *markettypes.MsgBuyDirect
+		for _, o := range pre.SellOrders {
+			if m := pre.Market(o.MarketId); o.Id == id && m != nil {
+				amt, _ := sdk.NewIntFromString(o.AskAmount)
+				msg = MkBuyMsg(B, id, o.Quantity, sdk.NewCoin(m.BankDenom, amt), true).(*markettypes.MsgBuyDirect)
+			}
+		}
+		if msg == nil {
+			return nil
+		}
+		msg.Buyer = strings.ToUpper(B.String())
+		return Msg(fmt.Sprintf("BuyDirect(B-in-upper-case,own-order)[id=%d]", id), msg)
+	}})
 	return Spec{Name: "market", Seeds: []explore.Seed{prepared, FreshCoreSeed()},
 		Events: append(good, bad...), DepthQuick: 4, DepthThor: 5, ExpectFail: expectFail(names(bad...)...), MinStates: 500}
 }
@@ -381,6 +401,12 @@ func Large() Spec {
 		fix(Sell(B, B1, Big, coin("uregen", 1), true, nil)),
 		CancelOrder(B, B, 2),
 		MintFresh(A, B1, C, Eps, "0"),
+		// balances of 35 significant digits (two exact additions of 34-digit amounts reach them too): the ledgers are exact,
+		// a helper that rounds at 34 digits loses the last place of a retired balance / a supply
+		MintFresh(A, B1, C, "1", Big35b),
+		fix(Retire(C, B1, Eps)),
+		fix(Cancel(C, B1, Eps)),
+		fix(Send(C, B, B1, "0", Eps)),
 	}
 	return Spec{Name: "large", Seeds: []explore.Seed{PreparedSeed("prepared")},
 		Events: good, DepthQuick: 5, DepthThor: 6, MinStates: 200}
@@ -496,27 +522,31 @@ func GovPool() Spec {
 		Events: append(good, bad...), DepthQuick: 4, DepthThor: 5, ExpectFail: expectFail(names(bad...)...), MinStates: 300}
 }
 
+// DropZeroAmounts removes every zero amount from the balance and supply rows of a genesis document (absent
+// amounts are admitted by the module's validation and read as zero by the handlers).
+func DropZeroAmounts(d GenDoc) {
+	for _, table := range []string{"regen.ecocredit.v1.BatchBalance", "regen.ecocredit.v1.BatchSupply"} {
+		var rows []map[string]interface{}
+		if err := json.Unmarshal(d[table], &rows); err != nil {
+			panic(err)
+		}
+		for _, r := range rows {
+			for _, k := range []string{"tradableAmount", "retiredAmount", "escrowedAmount", "cancelledAmount", "tradable_amount", "retired_amount", "escrowed_amount", "cancelled_amount"} {
+				if v, ok := r[k].(string); ok && v == "0" {
+					delete(r, k)
+				}
+			}
+		}
+		d.Set(table, rows)
+	}
+}
+
 // SparseGenesis: the prepared state IMPORTED FROM A GENESIS DOCUMENT in which every zero amount of the
 // balance and supply rows is left out (an absent field; the modules' own validation admits it and the
 // repository's own genesis test uses it), followed by operations of all three sub-modules on those rows.
 // States built by messages never contain such rows.
 func SparseGenesis() Spec {
-	seed := GenesisSeed("genesis-with-absent-zero-amounts", PreparedActions(), func(d GenDoc) {
-		for _, table := range []string{"regen.ecocredit.v1.BatchBalance", "regen.ecocredit.v1.BatchSupply"} {
-			var rows []map[string]interface{}
-			if err := json.Unmarshal(d[table], &rows); err != nil {
-				panic(err)
-			}
-			for _, r := range rows {
-				for _, k := range []string{"tradableAmount", "retiredAmount", "escrowedAmount", "cancelledAmount", "tradable_amount", "retired_amount", "escrowed_amount", "cancelled_amount"} {
-					if v, ok := r[k].(string); ok && v == "0" {
-						delete(r, k)
-					}
-				}
-			}
-			d.Set(table, rows)
-		}
-	})
+	seed := GenesisSeed("genesis-with-absent-zero-amounts", PreparedActions(), DropZeroAmounts)
 	e10 := chain.T0.Add(10 * time.Second)
 	ur := func(n int64) sdk.Coin { return coin("uregen", n) }
 	evs := []E{
@@ -643,6 +673,106 @@ func OddGenesis() Spec {
 		exp[e.Name] = true
 	}
 	return Spec{Name: "odd-genesis", Seeds: []explore.Seed{seed}, Events: evs, DepthQuick: 3, DepthThor: 4, ExpectFail: exp, MinStates: 20}
+}
+
+// genRows loads the rows of an ORM genesis table (auto-increment tables lead with the last id).
+func genRows(d GenDoc, table string) (lead []interface{}, rows []map[string]interface{}) {
+	var raw []interface{}
+	if err := json.Unmarshal(d[table], &raw); err != nil {
+		panic(err)
+	}
+	for _, x := range raw {
+		if m, ok := x.(map[string]interface{}); ok {
+			rows = append(rows, m)
+		} else {
+			lead = append(lead, x)
+		}
+	}
+	return
+}
+
+func genStore(d GenDoc, table string, lead []interface{}, rows []map[string]interface{}) {
+	out := append([]interface{}{}, lead...)
+	for _, r := range rows {
+		out = append(out, r)
+	}
+	d.Set(table, out)
+}
+
+// OddBasketGenesis (C05): basket balance rows no message writes — a positive balance spelled with one decimal place
+// more than the precision, and an all-zero row (Take deletes a drained row). Both pass the module's validation; the
+// value of the basket is unchanged, so the tokens stay backed 1:1 whatever Put / Take then do (or refuse to do).
+func OddBasketGenesis() Spec {
+	seed := GenesisSeed("genesis-with-odd-basket-balance-rows", PreparedActions(), func(d GenDoc) {
+		lead, rows := genRows(d, "regen.ecocredit.basket.v1.BasketBalance")
+		found := false
+		for _, r := range rows {
+			if r["balance"] == "2" {
+				r["balance"], found = "2.0000000", true
+			}
+		}
+		if !found {
+			panic("odd basket genesis: NCT's balance row of b1 not found")
+		}
+		zero := map[string]interface{}{}
+		for k, v := range rows[0] {
+			zero[k] = v
+		}
+		zero["batch_denom"], zero["balance"], zero["batch_start_date"] = B2, "0", "2019-01-01T00:00:00Z"
+		genStore(d, "regen.ecocredit.basket.v1.BasketBalance", lead, append(rows, zero))
+	})
+	evs := []E{
+		fix(Put(B, NCT, BC(B1, "1"))),
+		fix(Put(C, NCT, BC(B1, "0.5"))),
+		fix(Put(B, NCT, BC(B2, "1"))),
+		fix(Put(B, NCT, BC(B3, "1"))),
+		fix(Put(B, RCT, BC(B1, "1"))),
+		fix(Take(B, NCT, "1000000", false)),
+		fix(Take(B, NCT, "500000", true)),
+		TakeAll(B, NCT, false),
+		fix(Next(11 * time.Second)),
+	}
+	exp := map[string]bool{}
+	for _, e := range evs {
+		exp[e.Name] = true
+	}
+	return Spec{Name: "odd-basket-genesis", Seeds: []explore.Seed{seed}, Events: evs, DepthQuick: 3, DepthThor: 4, ExpectFail: exp, MinStates: 10}
+}
+
+// ShortEscrowGenesis (C19, use sites of the balance subtraction): B's two open orders for b1 (1 + 1) are not covered by
+// its escrowed amount (0; the credits are listed as tradable, so every sum the validation checks is unchanged).
+// Releasing or filling such an order subtracts from an escrow that is too small: an error, never a negative amount.
+func ShortEscrowGenesis() Spec {
+	e20 := chain.T0.Add(20 * time.Second)
+	seed := GenesisSeed("genesis-with-orders-exceeding-the-escrow", PreparedActions(), func(d GenDoc) {
+		lead, rows := genRows(d, "regen.ecocredit.v1.BatchBalance")
+		found := false
+		for _, r := range rows {
+			if r["batch_key"] == "1" && r["tradable_amount"] == "5" && r["escrowed_amount"] == "2" {
+				r["tradable_amount"], r["escrowed_amount"], found = "7", "0", true
+			}
+		}
+		if !found {
+			panic("short escrow genesis: B's balance row of b1 not found")
+		}
+		genStore(d, "regen.ecocredit.v1.BatchBalance", lead, rows)
+	})
+	evs := []E{
+		CancelOrder(B, B, 0),
+		CancelOrder(B, B, 1),
+		UpdateOrder(B, B, 0, "0.5", nil, true, nil),
+		UpdateOrder(B, B, 1, "0.25", nil, true, &e20),
+		Buy(D, "B0-half", BuySpec{Seller: B, K: 0, Qty: "0.5", DAR: true, MaxFee: I64(100)}),
+		Buy(D, "B0-all", BuySpec{Seller: B, K: 0, DAR: true, MaxFee: I64(100)}),
+		fix(Send(B, C, B1, "6", "0")),
+		fix(Retire(B, B1, "7")),
+		fix(Next(10 * time.Second)),
+	}
+	exp := map[string]bool{}
+	for _, e := range evs {
+		exp[e.Name] = true
+	}
+	return Spec{Name: "short-escrow-genesis", Seeds: []explore.Seed{seed}, Events: evs, DepthQuick: 3, DepthThor: 4, ExpectFail: exp, MinStates: 5}
 }
 
 // BasketMarket: basket tokens used as the ask denomination of the marketplace, with fees (C05): the
